@@ -35,6 +35,11 @@ fn near(rng: &mut Rng, base: u64) -> u64 {
     }
 }
 
+/// like `near`, but one time in five ANY number behind the counter (`0..=next`): requests for long-revoked states
+fn behind(rng: &mut Rng, next: u64, base: u64) -> u64 {
+    if rng.chance(1, 5) { rng.below(next.saturating_add(1).max(1)) } else { near(rng, base) }
+}
+
 /// send a request through the real protocol handler instead of the channel entry point (same model request)
 fn handlerize(rng: &mut Rng, op: String) -> String {
     let t: Vec<&str> = op.split_whitespace().collect();
@@ -160,7 +165,16 @@ impl EnfGroup {
                     }
                 }
                 // signature variant: mostly all genuine; else one of the defective lists
-                let v = if rng.chance(2, 3) { 1 } else { *rng.pick(&[0u64, 2, 3, 4, 5, 6, 7, 8]) };
+                let v = if rng.chance(2, 3) { 1 } else { *rng.pick(&[0u64, 2, 3, 4, 5, 6, 7, 8, 9, 9]) };
+                // 9 = replay of the signatures of the same content one number earlier: mostly the content of the current commitment
+                let v = if v == 9 && n == 0 { 1 } else { v };
+                if v == 9 && rng.chance(4, 5) {
+                    if let Some(cv) = cur_c {
+                        if cv != 999 {
+                            c = cv;
+                        }
+                    }
+                }
                 // raw per-signature facts + the verdict of the payment check that follows the signature check; what
                 // the signer's loop makes of them is computed by the model (`sigFactOf`)
                 let fact = sig_token(v, content_htlc_total(c), w.outgoing_ok(&offered_of(c)));
@@ -180,13 +194,13 @@ impl EnfGroup {
             "getpoint" => format!("getpoint {}", near(rng, next + 1)),
             "hgetpoint" => format!("hgetpoint {} {}", rng.range(4, 6), near(rng, next + 1)),
             "hgetpoint2" => format!("hgetpoint2 {}", near(rng, next + 1)),
-            "getsecret" => format!("getsecret {}", near(rng, next.saturating_sub(2))),
-            "getsecretnone" => format!("getsecretnone {}", near(rng, next.saturating_sub(2))),
-            "signholder" => format!("signholder {}", near(rng, next.saturating_sub(1))),
+            "getsecret" => format!("getsecret {}", behind(rng, next, next.saturating_sub(2))),
+            "getsecretnone" => format!("getsecretnone {}", behind(rng, next, next.saturating_sub(2))),
+            "signholder" => format!("signholder {}", behind(rng, next, next.saturating_sub(1))),
             "signrecovery" => "signrecovery".into(),
             "signredundant" => {
                 let base = if rng.chance(1, 2) { next.saturating_sub(1) } else { next };
-                let n = near(rng, base);
+                let n = behind(rng, next, base);
                 let mut c = hcontent_pick(rng);
                 if n.checked_add(1) == Some(next) && rng.chance(3, 4) {
                     if let Some(v) = cur_c {
@@ -331,6 +345,12 @@ impl Group for EnfGroup {
                 )));
                 v.push(f(&format!("filter {}|setup|validate 0 0 1 1 2|activate|validate 1 9 1 0 2|revoke 1 1|getsecret 0|validate 1 1 0 1 2 0|revoke 1 1|validate 1 1 1 1 2|signholder 0|revoke 1 1|hrevoke 6 0 1|getsecret 0", cfg)));
             }
+            // a transient store error (the signer keeps running), the node retries the request, later the signer restarts
+            v.push(f("setup|validate 0 0 1 1 2|activate|validate 1 1 1 1 2|failr signholder 0|signholder 0|restart|revoke 1 1|getsecret 0"));
+            v.push(f("setup|validate 0 0 1 1 2|activate|validate 1 1 1 1 2|failr revoke 1 1|revoke 1 1|restart|signholder 0|getsecret 0"));
+            v.push(f("setup|validate 0 0 1 1 2|activate|validate 1 1 1 1 2|failr hrevoke 6 0 1|hrevoke 6 0 1|restart|hsigncommit 6 0"));
+            v.push(f("setup|validate 0 0 1 1 2|activate|failr validate 1 1 1 1 2|validate 1 1 1 1 2|revoke 1 1|restart|signholder 0|signholder 1"));
+            v.push(f("setup|signcp 0 1000 0 1 2|failr signcp 1 1004 0 1 2|signcp 1 1004 0 1 2|restart|signcp 1 1005 1 1 2"));
             // the store refuses the writes of one request: whatever is acknowledged counts, then restart from the store
             v.push(f("setup|signcp 0 1000 0 1 2|failw signcp 1 1004 0 1 2|restart|signcp 1 1005 1 1 2|signcp 1 1004 0 1 2"));
             // composite store: the main or the backup side refuses the writes of one request
@@ -390,6 +410,20 @@ impl Group for EnfGroup {
             // counterparty side: window, retry, revocation with right/wrong secret
             f("setup|signcp 0 1000 0 1 2|signcp 0 1000 0 1 1|signcp 0 1001 0 1 2|signcp 0 1000 1 1 2|signcp 2 1008 0 1 2|signcp 1 1004 1 1 2|signcp 2 1008 0 1 2|restart|signcp 2 1008 0 1 2"),
         ];
+        // the next commitment with the content of the current one and the signatures the signer stored for the current one
+        // (replayed, not valid for the new number), both entry points and the version-4 handler, then the revocation
+        for req in [format!("validate 1 0 {} 1 1 9", sig_token(9, 0, true)), format!("validate 1 0 {} 1 2 9", sig_token(9, 0, true)),
+                    format!("hvalidate 4 1 0 {} 1 9", sig_token(9, 0, true)), format!("hvalidate1 6 1 0 {} 1 9", sig_token(9, 0, true))] {
+            v.push(f(&format!("setup|validate 0 0 1 1 2|activate|{}|revoke 1|hrevoke 6 0|getsecret 0|restart|{}|revoke 1|getsecret 0", req, req)));
+        }
+        // a deeper history (three revocations: next = 4, current = 3), then EVERY number 0..=4 through every entry point that
+        // releases a holder signature or a secret (round 9: numbers far behind the counter, not only next-1 / next-2)
+        for n in 0..=4u64 {
+            for req in [format!("signredundant {} {} 1", n, n % 4), format!("signholder {}", n), format!("hsigncommit 6 {}", n),
+                        format!("getsecret {}", n), format!("hgetpoint 4 {}", n + 2), format!("validate {} {} 1 1 2", n, n % 4), format!("revoke {}", n)] {
+                v.push(f(&format!("setup|validate 0 0 1 1 2|activate|validate 1 1 1 1 2|revoke 1|validate 2 2 1 1 2|revoke 2|validate 3 3 1 1 2|revoke 3|{}|restart|{}|getsecret 3|signholder 3", req, req)));
+            }
+        }
         // all 6 orders of {validate n+1, sign n, revoke n} × sign variants × a restart point
         let steps = |sign: &str| vec!["validate 1 1 1 1 2".to_string(), sign.to_string(), "revoke 1".to_string()];
         for sign in ["signholder 0", "signrecovery", "signredundant 0 0 1", "signredundant 1 1 1", "mutualclose 1 2"] {
@@ -503,7 +537,7 @@ impl Group for EnfGroup {
                 // free mode: the store refuses every write during one state-changing request
                 let k = op.split(' ').next().unwrap_or("");
                 if self.free && rng.chance(1, 8) && matches!(k, "validate" | "hvalidate" | "hvalidate1" | "revoke" | "hrevoke" | "activate" | "signholder" | "hsignholder" | "hsigncommit" | "signrecovery" | "signredundant" | "mutualclose" | "hmutualclose" | "signcp" | "hsigncp" | "revokecp" | "hrevokecp") {
-                    format!("{} {}", if backup && rng.chance(1, 3) { "failb" } else { "failw" }, op)
+                    format!("{} {}", if backup && rng.chance(1, 3) { "failb" } else if !backup && rng.chance(1, 3) { "failr" } else { "failw" }, op)
                 } else {
                     op
                 }
@@ -514,6 +548,19 @@ impl Group for EnfGroup {
             ops.push(op);
             // crash point: a restart directly after a request that changed the state (a dropped or misplaced
             // persist shows exactly here)
+            // a transient store error (`failr`) that made the request fail: the node usually retries the same request on the
+            // running signer, sometimes the signer is restarted afterwards
+            if ops.last().map(|o| o.starts_with("failr ")).unwrap_or(false) && !line.starts_with("failr ok") && !w.dead {
+                if rng.chance(2, 3) {
+                    let retry = ops.last().unwrap()["failr ".len()..].to_string();
+                    w.apply(&retry);
+                    ops.push(retry);
+                }
+                if rng.chance(1, 2) {
+                    w.apply("restart");
+                    ops.push("restart".into());
+                }
+            }
             let acked_failw = ops.last().map(|o| o.starts_with("failw ") || o.starts_with("failb ")).unwrap_or(false) && (line.starts_with("failw ok") || line.starts_with("failb ok"));
             if (changed && !w.dead && rng.chance(1, 6)) || (acked_failw && rng.chance(2, 3)) {
                 w.apply("restart");
